@@ -18,3 +18,12 @@ Definition sem_case (fuel : nat) (p : script) (w : world) : string := show_sfina
 
 From Bardolph Require Import Lang.Instr Lang.CodeGen.
 Definition compile_case (p : script) : string := show_program (compile p).
+
+(* whether the script lies in the fragment for which the forward simulation is a theorem
+   (Lang/SimulationTop.v, covered_program_runs_as_its_source_says: every top-level statement a routine definition with a covered body
+   or a covered statement, no routine defined twice) -- reported by the language checks as the share of their generated scripts
+   for which reference semantics and machine model agree by proof rather than by the run *)
+From Bardolph Require Import Lang.Simulation3 Lang.SimulationTop.
+Definition covered_case (p : script) : string :=
+  let c := collect p [] [] in
+  if forallb (top_stmt_b (fst c) (snd c) 40) p && nodup_b (map fst (defs_of p)) then "covered" else "outside".
